@@ -2,3 +2,5 @@ pub mod dewey;
 pub mod plist;
 pub mod pattern;
 pub mod summary;
+pub mod hash;
+pub mod distinfo;
